@@ -140,6 +140,92 @@ def r_start_end(tmp, inp):
     return check_gate_result(data, res, inp['full'], exp, ('gated_data', 'mask'))
 
 
+@replayer('FlowCal.gate.high_low')
+def r_high_low(tmp, inp):
+    import FlowCal
+    data = data_input(tmp, inp)
+    ch = inp['channels']
+    high = None if inp['high'] is None else fnum(inp['high'])
+    low = None if inp['low'] is None else fnum(inp['low'])
+    N, D = data.shape
+    names = list(getattr(data, '_channels', []) or [])
+
+    def resolve(c):
+        if isinstance(c, str):
+            return names.index(c) if c in names else None
+        return c + D if -D <= c < 0 else (c if 0 <= c < D else None)
+    if ch is None:
+        cols = list(range(D))
+    elif isinstance(ch, list):
+        cols = [resolve(c) for c in ch]
+    else:
+        cols = [resolve(ch)]
+    res = call(FlowCal.gate.high_low, data, channels=ch, high=high, low=low, full_output=inp['full'])
+    if any(c is None for c in cols):
+        ok = res[0] == 'raise'
+        return (not ok), 'unknown name / out-of-range position must raise; observed %s' % res[0]
+    X = np.asarray(data)
+    rng = getattr(data, '_range', None)
+    exp = np.ones(N, dtype=bool)
+    for c in cols:
+        hi = high if high is not None else (rng[c][1] if (rng is not None and rng[c] is not None) else np.inf)
+        lo = low if low is not None else (rng[c][0] if (rng is not None and rng[c] is not None) else -np.inf)
+        exp &= (X[:, c] < hi) & (X[:, c] > lo)
+    return check_gate_result(data, res, inp['full'], exp, ('gated_data', 'mask'))
+
+
+@replayer('FlowCal.gate.ellipse')
+def r_ellipse(tmp, inp):
+    import FlowCal
+    data = data_input(tmp, inp)
+    ch = inp['channels']
+    N, D = data.shape
+    if ch is None:
+        res = call(FlowCal.gate.ellipse, data, [0], center=[0, 0], a=1, b=1)
+        return not (res[0] == 'raise' and isinstance(res[1], ValueError)), 'one channel must raise ValueError; observed %s' % res[0]
+    # theta: the model only fixes (cos, sin); recover an angle with those values when they are consistent
+    co, si = fnum(inp['cos']), fnum(inp['sin'])
+    if abs(co * co + si * si - 1) > 1e-9:
+        theta = fnum(inp['theta'])
+    else:
+        theta = math.atan2(si, co)
+    cx, cy = [fnum(v) for v in inp['center']]
+    a, b = fnum(inp['a']), fnum(inp['b'])
+    names = list(getattr(data, '_channels', []) or [])
+    cols = [(names.index(c) if c in names else None) if isinstance(c, str) else (c % D if -D <= c < D else None) for c in ch]
+    res = call(FlowCal.gate.ellipse, data, ch, center=[cx, cy], a=a, b=b, theta=theta, log=inp['log'], full_output=inp['full'])
+    if any(c is None for c in cols):
+        return res[0] != 'raise', 'invalid channel must raise; observed %s' % res[0]
+    X = np.asarray(data, dtype=float)
+    px, py = X[:, cols[0]], X[:, cols[1]]
+    if inp['log']:
+        with np.errstate(all='ignore'):
+            px, py = np.log10(px), np.log10(py)
+    co, si = math.cos(theta), math.sin(theta)
+    u = co * (px - cx) + si * (py - cy)
+    w = -si * (px - cx) + co * (py - cy)
+    q = (u / a) ** 2 + (w / b) ** 2
+    # events numerically on the boundary are not decisive in floating point: skip the replay there
+    if np.any(np.abs(q - 1) < 1e-9):
+        return False, 'event on the boundary within rounding: not decisive'
+    exp = q <= 1
+    v, d = check_gate_result(data, res, inp['full'], exp, ('gated_data', 'mask', 'contour'))
+    if v or not inp['full']:
+        return v, d
+    cnt = res[1].contour
+    if not (isinstance(cnt, list) and len(cnt) == 1 and np.ndim(cnt[0]) == 2 and cnt[0].shape[1] == 2):
+        return True, 'contour is not a list with one Kx2 array'
+    P = np.asarray(cnt[0], dtype=float)
+    if inp['log']:
+        P = np.log10(P)
+    uu = co * (P[:, 0] - cx) + si * (P[:, 1] - cy)
+    ww = -si * (P[:, 0] - cx) + co * (P[:, 1] - cy)
+    qq = (uu / a) ** 2 + (ww / b) ** 2
+    if not np.allclose(qq, 1, rtol=1e-6, atol=1e-6):
+        return True, 'contour points do not lie on the ellipse: max |q-1| = %g' % float(np.max(np.abs(qq - 1)))
+    return False, 'agrees'
+
+
 def main():
     path = sys.argv[1]
     with open(path) as f:
